@@ -45,7 +45,7 @@ def cases(draw, tier):
     t = draw(S.thresholds(c['pts'], metric, candidates=cands or None))
     ts = draw(st.lists(S.thresholds(c['pts'], 'smape'), min_size=1, max_size=4))
     return {'family': c['family'], 'pts': c['pts'], 'metric': metric, 'distance': distance, 'order': order,
-            't': t, 'min_points': draw(st.integers(0, n + 3)), 'ts': ts}
+            't': t, 'min_points': draw(st.integers(0, n + 3)), 'ts': ts, 'default_ts': draw(st.integers(0, 2)) == 0}
 
 
 def oracle(case, rec):
@@ -115,8 +115,13 @@ def oracle(case, rec):
         rec.tag('min-points-continuation')
 
     # multi-threshold variant (library defaults: shortest distance, SMAPE, segment ordering)
-    ts = list(case['ts'])
-    out = rec.call(4 * n + 16, L.rdp.min_point_rdp, p, list(ts), m, _site='rdp.min_point_rdp')
+    if case.get('default_ts'):
+        ts = [0.01, 0.001, 0.0001]          # the documented default; the call omits the argument
+        rec.tag('min_point_rdp:default-thresholds')
+        out = rec.call(4 * n + 16, L.rdp.min_point_rdp, p, min_points=m, _site='rdp.min_point_rdp')
+    else:
+        ts = list(case['ts'])
+        out = rec.call(4 * n + 16, L.rdp.min_point_rdp, p, list(ts), m, _site='rdp.min_point_rdp')
     if out is not FAILED:
         g, rem = as_list(out, 'min_point_rdp')
         if g is not None:
